@@ -20,6 +20,7 @@ import (
 
 type worker struct {
 	id      int
+	execs   int64 // executions served since spawn (race-mode workers are recycled to bound TSan memory)
 	cmd     *exec.Cmd
 	enc     *gob.Encoder
 	dec     *gob.Decoder
@@ -119,6 +120,7 @@ type scnRun struct {
 	samples    []Sample
 	viol       map[string]*Violation
 	stopped    bool
+	deaths     int
 	active     bool
 	unbounded  bool // the last pass pruned nothing: all interleavings explored
 	direct     *DirectReport
@@ -297,7 +299,7 @@ func (m *master) scenarios(only string) []*scnRun {
 		if b.Cap == 0 {
 			b.Cap = 3000000
 			if m.tier == "thorough" {
-				b.Cap = 40000000
+				b.Cap = 20000000
 			}
 		}
 		out = append(out, &scnRun{s: s, b: b, completed: -1, viol: map[string]*Violation{}})
@@ -530,11 +532,29 @@ func (m *master) run(evPath, knownPath, cxdir, only string, pbOver int) int {
 								workers[wi] = nw
 							}
 						} else {
-							setInfra(fmt.Sprintf("worker %d died (exit %d) on scenario %s: %v", wi, code, r.s.Name, err))
+							// unexpected death (e.g. killed by the OS): retry the batch once on a fresh worker
+							r.deaths++
+							fmt.Fprintf(os.Stderr, "vcheck: worker %d died (exit %d) on scenario %s: %v; respawning\n", wi, code, r.s.Name, err)
+							if r.deaths > 3 {
+								setInfra(fmt.Sprintf("worker %d died repeatedly (exit %d) on scenario %s: %v", wi, code, r.s.Name, err))
+							} else if nw, serr := m.spawn(wi); serr != nil {
+								setInfra("respawn: " + serr.Error())
+							} else {
+								workers[wi] = nw
+								r.queue = append(r.queue, items...)
+							}
 						}
 					} else if resp.Err != "" {
 						setInfra(resp.Err)
 					} else {
+						workers[wi].execs += resp.Stats.Execs
+						if m.race && workers[wi].execs > 150000 {
+							old := workers[wi]
+							if nw, serr := m.spawn(wi); serr == nil {
+								workers[wi] = nw
+								go old.stop()
+							}
+						}
 						r.queue = append(r.queue, resp.Left...)
 						r.passStats.Add(&resp.Stats)
 						for _, sm := range resp.Samples {
